@@ -28,3 +28,6 @@ func VerifNewUpstreamClusterController(lister proxylisters.UpstreamClusterLister
 func (m *UpstreamClusterController) VerifSync(obj *proxyv1alpha1.UpstreamCluster) (syncqueue.Result, error) {
 	return m.syncUpstreamCluster(obj)
 }
+
+// VerifQueue names the controller's sync queue (built by the real constructor).
+func (m *UpstreamClusterController) VerifQueue() *syncqueue.SyncQueue { return m.queue }
